@@ -731,6 +731,10 @@ ABSTRACT_BITMAPS = [False]     # a harness that wants bitmaps of arbitrary bits 
 
 def bits_of(data, endian='big'):
     """model of BitArray.tolist for abstract bytes: one truth value per bit, most significant bit of each byte first ('big')"""
+    if isinstance(data, Rope):
+        conc = rope.try_concrete(data)          # e.g. a lazy view on a literal whose offsets are decided on this path
+        if conc is not None:
+            data = conc
     if isinstance(data, Rope) and not ABSTRACT_BITMAPS[0]:
         raise Unsupported('bit list of an abstract bitmap')
     n = sh_len(data)
